@@ -13,6 +13,9 @@ pub const STACK: u64 = 0x6000_0000;
 /// a data page above 4 GiB: reachable from 32-bit addressing only through a segment base, so
 /// `truncate, then add the base` and `add the base, then truncate` give different addresses
 pub const HI: u64 = 0x1_5000_0000;
+/// a data page whose address has bit 31 set: under 32-bit addressing a displacement or sum
+/// that reaches it must be ZERO-extended (sign extension would leave the lower 4 GiB)
+pub const HI32: u64 = 0xA000_0000;
 
 pub const STATUS_FLAGS: u64 = 0x8d5; // CF PF AF ZF SF OF
 pub const DF: u64 = 0x400;
@@ -26,14 +29,16 @@ pub enum Region {
     None = 3,
     Stack = 4,
     Hi = 5,
+    Hi32 = 6,
 }
-pub const REGIONS: [(Region, u64, i32); 6] = [
+pub const REGIONS: [(Region, u64, i32); 7] = [
     (Region::Code, CODE, libc::PROT_READ | libc::PROT_EXEC),
     (Region::Rw, RW, libc::PROT_READ | libc::PROT_WRITE),
     (Region::Ro, RO, libc::PROT_READ),
     (Region::None, NONE, libc::PROT_NONE),
     (Region::Stack, STACK, libc::PROT_READ | libc::PROT_WRITE),
     (Region::Hi, HI, libc::PROT_READ | libc::PROT_WRITE),
+    (Region::Hi32, HI32, libc::PROT_READ | libc::PROT_WRITE),
 ];
 
 #[inline]
@@ -80,10 +85,10 @@ pub struct NativeOut {
 pub struct Stub {
     pub pid: i32,
     /// tracer-side RW views of the shared pages, indexed by Region
-    views: [*mut u8; 6],
+    views: [*mut u8; 7],
     regs0: libc::user_regs_struct,
     fp0: libc::user_fpregs_struct,
-    pub pristine: [Vec<u8>; 6],
+    pub pristine: [Vec<u8>; 7],
     pub steps: u64,
 }
 
@@ -107,8 +112,8 @@ impl Stub {
             libc::CPU_SET(cpu % crate::common::ncpu(), &mut set);
             libc::sched_setaffinity(0, std::mem::size_of::<libc::cpu_set_t>(), &set);
         }
-        let mut fds = [0i32; 6];
-        let mut views = [std::ptr::null_mut::<u8>(); 6];
+        let mut fds = [0i32; 7];
+        let mut views = [std::ptr::null_mut::<u8>(); 7];
         for (i, (_r, _a, _p)) in REGIONS.iter().enumerate() {
             fds[i] = memfd(&format!("axmc{i}"));
             let p = unsafe {
@@ -187,6 +192,7 @@ impl Stub {
             pristine_page(NONE),
             pristine_page(STACK),
             pristine_page(HI),
+            pristine_page(HI32),
         ];
         let mut s = Stub {
             pid,
@@ -196,7 +202,7 @@ impl Stub {
             pristine,
             steps: 0,
         };
-        for i in 0..6 {
+        for i in 0..7 {
             s.restore(i);
         }
         s.check_maps();
@@ -275,6 +281,7 @@ impl Stub {
         self.restore(Region::Rw as usize);
         self.restore(Region::Stack as usize);
         self.restore(Region::Hi as usize);
+        self.restore(Region::Hi32 as usize);
     }
 
     /// Writes `bytes` at `CODE + off` over int3 filler.
